@@ -10,9 +10,9 @@ class ElementTetSkeletonP0(ElementH1):
     facet_dofs = 1
     maxdeg = 0
     dofnames = ['u']
-    doflocs = np.array([[.5, .5, .0],
-                        [.5, .0, .5],
-                        [.0, .5, .5],
+    doflocs = np.array([[1 / 3, 1 / 3, .0],
+                        [1 / 3, .0, 1 / 3],
+                        [.0, 1 / 3, 1 / 3],
                         [1 / 3, 1 / 3, 1 / 3]])
     refdom = RefTet
 
